@@ -144,6 +144,7 @@ fn single_field_sweep(bits64: bool, section_only: bool) -> Vec<Item> {
         empty_first_note: false,
         text_skew: 0,
         soname_last: false,
+        dynamic_section_cuts_null: false,
     };
     let built = elf::build(&spec);
     let mut out = Vec::new();
